@@ -577,7 +577,44 @@ func genC06(r *Rand, p *Plan, tier string) {
 
 // ---- C08: sequence numbers and session retention ----------------------------------------
 
+// genC08many: hundreds of sessions open on one connection at the same time (a busy
+// single-connect device); the late ones are continued, or replayed, like any other.
+func genC08many(r *Rand, p *Plan, tier string) {
+	p.Family = "sequence-many-open"
+	p.Scen.Server = "probe"
+	key := r.key()
+	cs := ClientSpec{Addr: clientAddr(0), Key: key, SrvKey: key}
+	n := PickOf(r, 255, 256, 257, 258, 270, 300)
+	typ := uint8(1 + r.Intn(3))
+	kind := PickOf(r, requestKinds(typ)...)
+	for i := 0; i < n; i++ {
+		cs.Ops = append(cs.Ops, Op{Kind: "send", Pkt: &PktSpec{Ver: 0xc0, Type: typ, Seq: 1, Session: uint32(7000 + i), Body: GenBody(r, kind, false)}})
+		cs.Handler = append(cs.Handler, HStep{Reply: smallReply(r, typ), Next: 1 + r.Intn(3)})
+	}
+	// follow-ups of late sessions, then a replayed number on one of them
+	for k := 0; k < 3; k++ {
+		i := n - 1 - r.Intn(6)
+		if i < 0 {
+			i = 0
+		}
+		seq := uint8(3 + 2*k)
+		if k == 2 && r.Bool() {
+			seq = 1
+		}
+		cs.Ops = append(cs.Ops, Op{Kind: "send", Pkt: &PktSpec{Ver: 0xc0, Type: typ, Seq: seq, Session: uint32(7000 + i), Body: GenBody(r, kind, false)}})
+		cs.Handler = append(cs.Handler, HStep{Reply: smallReply(r, typ), Next: 1})
+	}
+	cs.Ops = append(cs.Ops, Op{Kind: "idle"})
+	p.Scen.Clients = []ClientSpec{cs}
+	p.Tape = r.Tape(1500)
+	p.MaxSteps = 8000
+}
+
 func genC08(r *Rand, p *Plan, tier string) {
+	if r.Chance(2) {
+		genC08many(r, p, tier)
+		return
+	}
 	p.Family = "sequence"
 	p.Scen.Server = "probe"
 	key := r.key()
